@@ -41,6 +41,7 @@ def main():
     ap.add_argument("--needs", default="")
     ap.add_argument("--check", nargs="*", default=None)
     ap.add_argument("--budget-env", default="")
+    ap.add_argument("--note", default="")
     a = ap.parse_args()
     patch = os.path.join(a.src, "patch.diff")
     demo = os.path.join(a.src, "demo.py")
@@ -49,6 +50,8 @@ def main():
     rc, out = sh(f"git -C /repo worktree add -q --detach {wt} HEAD")
     meta = {"seed_id": a.seed_id, "breaks_property": a.prop, "needs_to_manifest": a.needs,
             "repo_head": sh("git -C /repo rev-parse HEAD")[1].strip(), "ran": []}
+    if a.note:
+        meta["note"] = a.note
     try:
         shutil.copy(demo, os.path.join(wt, "demo.py"))
         env = dict(os.environ, PYTHONPATH="src", PYTHONDONTWRITEBYTECODE="1")
